@@ -109,6 +109,10 @@ def join(toks: typing.List[str], rng: typing.Optional[random.Random], blanks: fl
     for i, tk in enumerate(toks):
         if i and rng.random() < blanks:
             out.append(rng.choice([" ", " ", "  ", "\t", " \t "]))
+        elif i and tk == "." and (toks[i - 1][0].isdigit() or (toks[i - 1][0] == "." and len(toks[i - 1]) > 1)):
+            # `1.count` would be the real literal `1.` followed by a name (Ex.needsBlank in lean/Model/Expr.lean):
+            # the only place where two adjacent tokens of a rendered tree fuse
+            out.append(" ")
         out.append(tk)
     return "".join(out)
 
@@ -1094,7 +1098,8 @@ class ExprSuite(common.Suite):
             return {"err": "harness:" + type(ex).__name__, "soft_msg": str(ex)[:300], "rt": True}
 
     def model_case(self, case):
-        return {"id": case["id"], "tree": case["tree"], "env": case.get("env", []), "ctx": case["ctx"]}
+        # "text": the model lexes and parses the very characters the library gets and compares the result with the tree
+        return {"id": case["id"], "tree": case["tree"], "env": case.get("env", []), "ctx": case["ctx"], "text": case["text"]}
 
     def compare(self, case, impl, model, prop):
         m = {k: v for k, v in model.items() if k != "id" and not k.startswith("soft")}
